@@ -149,7 +149,7 @@ theorem C17_others_irrelevant (fs : FS) (start stop : Dir) :
     find fs start stop = find (fun d => (fs d).filter isSpok) start stop :=
   C17_order_irrelevant fs _ start stop (fun d e he => by simp [he])
 
-/-! ## the judge accepts the model -/
+/-! ## where the user stands -/
 
 /-- **Location independence.**  If discovery from `start` finds the spokfile of `d`, then discovery from EVERY directory between
     `d` and `start` finds the same one: where inside the project the user stands does not matter. -/
@@ -162,6 +162,14 @@ theorem C17_between (fs : FS) (start stop d d' : Dir) (h : find fs start stop = 
 theorem C17_found_stable (fs : FS) (start stop d : Dir) (h : find fs start stop = .found d) :
     find fs d stop = .found d :=
   C17_between fs start stop d d h (List.prefix_refl d) ((C17_found_iff fs start stop d).1 h).1
+
+/-- … and the negative side: when nothing is found from `start`, nothing is found from any directory above it either (no
+    spokfile appears by standing higher up) -/
+theorem C17_notFound_above (fs : FS) (start stop d' : Dir) (h : find fs start stop = .notFound) (h2 : d' <+: start) :
+    find fs d' stop = .notFound :=
+  (C17_notFound_iff fs d' stop).2 (fun d hd => (C17_notFound_iff fs start stop).1 h d (hd.trans h2))
+
+/-! ## the judge accepts the model -/
 
 theorem judge_accepts_model (fs : FS) (start stop : Dir) :
     c17 fs start stop (FindObs.ofResult (find fs start stop)) = true := by
